@@ -5,7 +5,7 @@ import rfc8554 as R
 RULE = ("valid triples from library signatures (all hashes, 1..4+ levels, mixed parameters) plus structure-aware mutations: bit flips in "
         "every field class (level count, q, type codes, randomizer, chain values, path nodes, child keys, public-key fields, message), "
         "truncation/extension at field boundaries and by one byte, splices across keys/levels/hashes, chain truncation with the message "
-        "replaced by a child public key; oracle = independent RFC 8554 verifier (tools/rfc8554.py, Appendix-B formulas); signature/key extensions at 8/16-bit length boundaries (255, 256, 65535, 65536, 65537, 2*65536)")
+        "replaced by a child public key; oracle = independent RFC 8554 verifier (tools/rfc8554.py, Appendix-B formulas); signature/key extensions at 8/16-bit length boundaries (255, 256, 65535, 65536, 65537, 2*65536); 7- and 8-level keys, level fields 0, 1, 7, 8, 9, 16, 0x100+L, 2^32-1 in key and signature")
 ASSUMPTIONS = ["the independent verifier uses the library's type-code numbering (1-4, 5-9, hook height 1) for every hash, as the property states "
                "('for the selected hash function')",
                "for the three LM-OTS rows whose checksum shift differs from Appendix B (known finding C12) the oracle uses the library's shift; "
@@ -104,6 +104,10 @@ def mutations(rng, k, msg, sig, tier, wide=True):
     # level-count games
     out.append(("levels/sig+1", msg, u32(nspk + 1) + sig[4:], k.vk))
     out.append(("levels/pk+1", msg, sig, u32(nspk + 2) + k.vk[4:]))
+    for v in (0, 1, 7, 8, 9, 16, 0x100 + nspk + 1, 0x10000 + nspk + 1, 2 ** 32 - 1):
+        if v != nspk + 1:
+            out.append(("levels/pk-field", msg, sig, u32(v) + k.vk[4:]))
+            out.append(("levels/sig-field", msg, u32((v - 1) % 2 ** 32) + sig[4:], k.vk))
     if nspk >= 1:
         l0 = lv[0]
         first = sig[l0["start"]:l0["end"]]
@@ -123,6 +127,8 @@ def run(ctx):
     rng = ctx.rng
     nkeys = 10 if ctx.tier == "quick" else 30
     specs = spec_list(rng, ctx.tier, nkeys, max_levels=5)
+    # keys with the maximum number of levels (and one below it): the level-count checks at the capacity of the level containers
+    specs += [("S16", [(3, 1)] * 8, rng.bytes_(16)), ("K24", [(3, 1), (2, 1), (3, 1), (3, 1), (2, 1), (3, 1), (3, 1)], rng.bytes_(24))]
     keys = make_keys(ctx, specs, proj_class)
     sign_cases = []
     for k in keys:
